@@ -449,6 +449,65 @@ pub fn run(ctx: &mut Ctx) {
     });
     ctx.exhaustive.insert("all 256 values of every single ignorable byte (EVEN-PORT RFFU, address first octet, padding, RFFU fields)".into(), ctx.only.is_none());
 
+    // encoder contexts with custom padding (feature `experiments`): padding bytes take the
+    // configured value everywhere (also between PASSWORD-ALGORITHMS entries), nothing else
+    // changes; with random padding the message still decodes to the same content
+    let n = ctx.n(6_000, 200_000);
+    ctx.cases("custom-padding", n, |ctx, case, rng| {
+        use stun_rs::{EncoderContextBuilder, MessageEncoderBuilder, StunPadding};
+        let mut m = gen::message(rng, 6, &cfg);
+        if case % 3 == 0 {
+            let n = 2 + rng.below(3) as usize;
+            m.attrs.insert(0, LAttr::PasswordAlgorithms((0..n).map(|_| (gen::alg_id(rng), gen::alg_params(rng))).collect()));
+        }
+        let Ok(Ok(lib_msg)) = guarded(|| bridge::to_lib_msg(&m)) else { return };
+        let pad = rng.next_u64() as u8;
+        let random = case % 4 == 1;
+        let ectx = EncoderContextBuilder::default().with_custom_padding(if random { StunPadding::Random } else { StunPadding::Custom(pad) }).build();
+        let enc = MessageEncoderBuilder::default().with_context(ectx).build();
+        let need = 20 + wire::encoded_attr_bytes(&m);
+        let mut buf = vec![0x11u8; need + 4];
+        let r = guarded(|| enc.encode(&mut buf, &lib_msg).map_err(|e| e.to_string()));
+        match r {
+            Err(p) => report_panic(ctx, "encode-custom-padding", &p, witness(&m, None)),
+            Ok(Err(e)) => ctx.violation("custom-padding-encode-failed", e, witness(&m, None)),
+            Ok(Ok(size)) => {
+                let got = &buf[..size.min(buf.len())];
+                if !random {
+                    let reference = wire::build(&m, &mut wire::PadOnly(pad));
+                    if got != reference.as_slice() {
+                        let off = got.iter().zip(reference.iter()).position(|(a, b)| a != b).unwrap_or(0);
+                        ctx.violation(
+                            &format!("custom-padding-bytes-differ:{}", kind_at(&m, &reference, off)),
+                            format!("with custom padding {:#04x} the bytes differ from the reference at offset {}", pad, off),
+                            witness(&m, Some(got)).set("reference", J::s(hex_trunc(&reference, 300))),
+                        );
+                    }
+                }
+                // whatever the padding, the content decodes unchanged (and validates)
+                let key = m.key.as_ref().and_then(|k| bridge::lib_key(k).ok());
+                let valid = m.attrs.iter().all(|a| match a {
+                    LAttr::Realm { text, .. } | LAttr::Nonce { text, .. } => wire::valid_quoted_content(text),
+                    _ => true,
+                });
+                if valid {
+                    match decode(&decoder(if key.is_some() { Some(3) } else { Some(2) }, key.as_ref()), got) {
+                        Err(p) => report_panic(ctx, "decode", &p, witness(&m, Some(got))),
+                        Ok(Err(e)) => ctx.violation("custom-padding-decode-failed", e, witness(&m, Some(got))),
+                        Ok(Ok((dm, _))) => {
+                            let diffs = compare_decoded(&m, got, &dm, false);
+                            if !diffs.is_empty() {
+                                ctx.violation("custom-padding-changes-content", diffs.join("; "), witness(&m, Some(got)));
+                            }
+                        }
+                    }
+                }
+                ctx.count(if random { "padding.random" } else { "padding.custom" });
+            }
+        }
+        ctx.eval(Some(fnv64(&buf)));
+    });
+
     // random messages, both directions
     let max_attrs = if ctx.quick() { 10 } else { 30 };
     let n = ctx.n(100_000, 2_000_000);
